@@ -1,7 +1,10 @@
 /-
   Model/Incent — M-Incent: x/streamer (streams, epoch pointers, paged distribution) and
   x/incentives (asset / rollapp gauges, payouts to lock owners / rollapp owner) of the Dymension hub,
-  mirroring the Go code AS IT IS (same order of checks, same rounding, same error cases).
+  mirroring the Go code AS IT IS (same order of checks, same rounding, same error cases) — with the
+  repairs fix D1 (share = amount·weight/total) and D2 (streams sorted by id in Distribute) applied.
+  (D3 — mid-epoch activation — is NOT repaired: an upstream test pins that mechanism; see tag c15-d1-d2-d3
+  for the variant of this package that follows fix D3.)
   Core Lean only.
 
   Mirrors (file: functions):
@@ -191,9 +194,9 @@ end Bank
 
 /-! ## Pure kernels -/
 
-/-- `CalculateGaugeRewards`, one coin: `amount.Mul(weight.Quo(total)).TruncateInt()` on LegacyDec -/
-def streamShare (amount weight total : Nat) : Nat :=
-  ((Dec.ofInt amount).mul ((Dec.ofInt weight).quo (Dec.ofInt total))).truncateInt.toNat
+/-- `CalculateGaugeRewards`, one coin: `coin.Amount.Mul(record.Weight).Quo(totalWeight)` on math.Int
+    (multiply before dividing; repaired by fix D1) -/
+def streamShare (amount weight total : Nat) : Nat := amount * weight / total
 
 /-- `CalculateGaugeRewards` over all coins of `EpochCoins` (zero and non-positive results are skipped,
     i.e. contribute 0) -/
@@ -529,9 +532,19 @@ def saveStreams (epochEnd : Bool) : List Stream → State → Res
       | .ok s1 => saveStreams epochEnd rest s1
     else saveStreams epochEnd rest (setStream s st)
 
+/-- `slices.SortFunc(streams, CmpStreams)` (fix D2): ids are distinct, so any sorting algorithm gives
+    this list -/
+def insertById (st : Stream) : List Stream → List Stream
+  | [] => [st]
+  | x :: xs => if st.id ≤ x.id then st :: x :: xs else x :: insertById st xs
+
+def sortById : List Stream → List Stream
+  | [] => []
+  | x :: xs => insertById x (sortById xs)
+
 /-- x/streamer `Keeper.Distribute(epochPointers, streams, maxOperations, epochEnd)` -/
 def strDistribute (s : State) (epochIds : List Nat) (streams : List Stream) (maxOps : Nat) (epochEnd : Bool) : Res :=
-  let (_, c, ps) := ptrLoop s maxOps (sortByDuration epochIds) 0 ⟨streams, [], []⟩ s.ptrs
+  let (_, c, ps) := ptrLoop s maxOps (sortByDuration epochIds) 0 ⟨sortById streams, [], []⟩ s.ptrs
   let s1 := { s with ptrs := ps }
   let bank? := if c.distributed.isZero then some s1.bank else s1.bank.send streamerAddr incAddr c.distributed
   match bank? with
@@ -549,15 +562,15 @@ def streamerEndBlock (s : State) : Res :=
 
 def activeStreamsFor (s : State) (e : Nat) : List Stream := (activeStreams s).filter (·.epochId == e)
 
-/-- streamer `AfterEpochEnd` -/
+/-- streamer `AfterEpochEnd` (returns early, without resetting the pointer, when the epoch has no active stream) -/
 def streamerAfterEpochEnd (s : State) (e : Nat) : Res :=
-  let act := activeStreamsFor s e
-  if act.isEmpty then .ok s else
-  match strDistribute s [e] act maxU64 true with
+  if (activeStreamsFor s e).isEmpty then .ok s else
+  match strDistribute s [e] (activeStreamsFor s e) maxU64 true with
   | .error x => .error x
   | .ok s' => .ok { s' with ptrs := s'.ptrs.set e Pointer.first }
 
-/-- `moveUpcomingStreamToActiveStream` for all due upcoming streams (iterating a snapshot) -/
+/-- `moveUpcomingStreamToActiveStream` for all due upcoming streams, whatever their epoch identifier
+    (iterating a snapshot) -/
 def activateDue : List Stream → State → Res
   | [], s => .ok s
   | st :: rest, s =>
@@ -719,21 +732,24 @@ def createStream (s : State) (coins : Coins) (recs : List Rec) (start epochId nu
       | none => (.err, s)
       | some u => (.ok, { s with streams := s.streams ++ [st], upcoming := u })
 
-/-- `TerminateStreamProposal` -/
+/-- `moveStreamToFinishedStream` from the given list -/
+def moveToFinished (s : State) (fromActive : Bool) (st : Stream) : Option State :=
+  match Refs.del (if fromActive then s.active else s.upcoming) st.start st.id with
+  | none => none
+  | some r =>
+    match Refs.add s.finished st.start st.id with
+    | none => none
+    | some f => if fromActive then some { s with active := r, finished := f } else some { s with upcoming := r, finished := f }
+
+/-- `TerminateStreamProposal`: the list is chosen by the time predicate, not by where the stream is -/
 def terminateStream (s : State) (id : Nat) : Out × State :=
   match getStream s id with
   | none => (.err, s)
   | some st =>
     if st.isFinished s.now then (.err, s) else
-    let src := if st.isActive s.now then s.active else s.upcoming
-    match Refs.del src st.start st.id with
+    match moveToFinished s (st.isActive s.now) st with
+    | some s' => (.ok, s')
     | none => (.err, s)
-    | some r =>
-      match Refs.add s.finished st.start st.id with
-      | none => (.err, s)
-      | some f =>
-        if st.isActive s.now then (.ok, { s with active := r, finished := f })
-        else (.ok, { s with upcoming := r, finished := f })
 
 /-- `ReplaceStreamDistributionProposal` -/
 def replaceDistr (s : State) (id : Nat) (recs : List Rec) : Out × State :=
